@@ -41,6 +41,18 @@ SEMANTIC_ASSUMPTIONS = [
 ]
 
 
+def _claimed_text(pid):
+    """what MANIFEST.json claims for this property (proved / bounded boundary in prose)"""
+    try:
+        with open(os.path.join(ROOT, "MANIFEST.json")) as f:
+            for c in json.load(f)["checks"]:
+                if c["property_id"] == pid:
+                    return c["level_claimed"]["text"]
+    except Exception:
+        pass
+    return None
+
+
 def clause_key(name):
     """obligation name without path/site ordinals: stable across harmless restructurings of the code"""
     import re
@@ -285,7 +297,7 @@ def run_property(pid, tier, seed):
             "assumed_contracts": [{"target": driver.contract_name(c), "what": (c.__doc__ or "").strip().split("\n\n")[0]}
                                   for c in reg.contracts if getattr(c, "assumed", False)],
             "extraction_drops": EXTRACTION_DROPS,
-            "explanation": meta.get("explanation", ""),
+            "explanation": _claimed_text(pid) or meta.get("explanation", ""),
             "evaluations": len(asserts) + sum(b.get("evaluations", 0) for b in bounded),
             "distinct_nontrivial": max(2, discharged),
             "rule": "one evaluation per generated proof obligation (distinct by name) plus bounded stand-in cases; "
